@@ -486,6 +486,7 @@ LINKS = {
     'lazy-if': '=IF(TRUE,C%d+1,0)',         # in a lazily evaluated argument
     'lazy-and': '=IF(AND(TRUE,C%d>-1E+9),C%d+1,0)',
     'range': '=SUM(C%d:C%d)+1',
+    'twice': '=C%d+C%d*0+1',                # the next cell along two paths
 }
 
 
@@ -624,13 +625,18 @@ def _run_deep(ending, ctx):
                     'cycle-report',
                     ['chain', 'deep-cycle', 'entry:on-cycle', 'link:' + link],
                     {'kind': 'deep', 'ending': ending}, True)
+        _run_deep_reloaded(ctx)
         return
-    for d in DEEP + tuple(-x for x in DEEP):
-        # (negative: the same depth with acyclic sharing of the last cell)
+    for d, link in [(x, 'plus') for x in DEEP + tuple(-x for x in DEEP)] + [
+            (x, 'twice') for x in DEEP]:
+        # (negative: the same depth with acyclic sharing of the last cell;
+        # 'twice': every cell reaches the next one along two paths)
         shared = d < 0
         d = abs(d)
-        cells = chain_model(d, ending, shared=shared)
-        key = 'C06/deep/%s%s/d=%d' % (ending, '-shared' if shared else '', d)
+        cells = chain_model(d, ending, link=link, shared=shared)
+        key = 'C06/deep/%s%s%s/d=%d' % (ending, '-shared' if shared else '',
+                                        '' if link == 'plus' else '-' + link,
+                                        d)
         inputs = {'kind': 'deep', 'ending': ending}
         model = lib.compile_dict(cells)
         try:
@@ -641,10 +647,50 @@ def _run_deep(ending, ctx):
             got = 'timeout'
         lib.clear_caches()
         ctx.count('transitions')
-        obs = 'cycle-report' if got == 'cycle-report' else 'no-cycle-report'
+        obs = 'cycle-report' if got == 'cycle-report' else (
+            'no answer within 30 s' if got == 'timeout' else 'no-cycle-report')
         ctx.check(key, obs, 'no-cycle-report',
-                  ['chain', 'deep-acyclic', 'ending:' + ending], inputs, True,
-                  'outcome=%s' % got)
+                  ['chain', 'deep-acyclic', 'ending:' + ending,
+                   'link:' + link], inputs, True, 'outcome=%s' % got)
+
+
+def _run_deep_reloaded(ctx):
+    """The formulas change under a living evaluator (its Model object is
+    loaded anew): what it found out about the old formulas is not the
+    answer for the new ones."""
+    import os
+    import tempfile
+    for d in DEEP:
+        texts = {'open': chain_model(d, 'value'),
+                 'closed': chain_model(d, 'back-edge', 1)}
+        with tempfile.TemporaryDirectory(prefix='xlmc_c06_') as tmp:
+            paths = {}
+            for name, cells in texts.items():
+                paths[name] = os.path.join(tmp, name + '.json')
+                lib.compile_dict(cells).persist_to_json_file(paths[name])
+            for first, second in (('open', 'closed'), ('closed', 'open')):
+                model = lib.compile_dict(texts[first])
+                ev = lib.Evaluator(model)
+                try:
+                    with lib.time_limit(30):
+                        cycle_obs(ev.evaluate, 'Sheet1!C1')
+                        model.construct_from_json_file(paths[second], True)
+                        got, _ = cycle_obs(ev.evaluate, 'Sheet1!C1')
+                except lib.CaseTimeout:
+                    got = 'timeout'
+                lib.clear_caches()
+                ctx.count('transitions', 2)
+                obs = 'cycle-report' if got == 'cycle-report' else (
+                    'no answer within 30 s' if got == 'timeout'
+                    else 'no-cycle-report')
+                ctx.check('C06/deep/reloaded/%s-then-%s/d=%d' % (
+                    first, second, d), obs,
+                    'cycle-report' if second == 'closed'
+                    else 'no-cycle-report',
+                    ['chain', 'deep-cycle' if second == 'closed'
+                     else 'deep-acyclic', 'history:model-reloaded'],
+                    {'kind': 'deep', 'ending': 'back-edge'}, True,
+                    'outcome=%s' % got)
 
 
 # -- defined names of several areas ----------------------------------------------
